@@ -1,6 +1,7 @@
 """property -> units / harness groups, claim texts, not-applicable list"""
 
 KANI_COMPLETE = 'Kani/CBMC function-level harnesses on the real crate, loop-free or unwound to a type-level constant, full-domain symbolic inputs'
+ENUM_TECH = 'bounded exhaustive enumeration of the real function against an independent oracle (stand-in: no installed deductive verifier reaches this string code)'
 VERUS_TECH = 'contract-based deductive verification (Verus/Z3) of functions extracted mechanically from /repo'
 
 PROPERTIES = {
@@ -60,8 +61,40 @@ PROPERTIES = {
               'merge_equal and merge_javadoc(_ab) are equality-or-error / present-iff-either. Partial: the key-union zip over IndexMap (zip_map_combination) and merge_namespaces are not under contract.',
         note='Trusted: Kani 0.68/CBMC; anyhow shim; merge_names instantiated at &JavaStr names from a 3-entry menu (the function only clones, compares and tests emptiness); Javadoc/T = u8.',
         out=['quill/src/action/diff_mappings.rs zip_map_combination (IndexMap)', 'merge_namespaces', 'Mappings::merge traversal']),
+    'C06': dict(
+        level='other', verus=[], kani=[], enum=['mapdesc'],
+        technique=ENUM_TECH,
+        explanation='Bounded stand-in for map_desc / map_class: all 137 257 strings of length <= 6 over {L ; [ a b I (} and all valid class names <= 4 over {a b / $ x}, compared with an independent scanner.',
+        claim='Bounded (not proved): map_desc replaces exactly the class names inside L...; and keeps every other byte (shape preserved), fails exactly on an unterminated L or on L;, never panics; map_class returns the mapped name or the unchanged name. '
+              'Not covered: member tables (remapper_b), super-class search, X->Y->X identity (IndexMap/IndexSet of JavaString: outside both verifiers).',
+        note='Bounded stand-in, NOT a proof: Kani needs >300 s and >14 GB for one descriptor of length 1 (measured) and Verus has no str/Chars support, so the real functions are run natively on every input up to the stated bound and compared with an independent oracle; inputs beyond the bound are not covered. Real anyhow, scratch copy of the crate.',
+        out=['quill/src/remapper.rs remapper_b / BRemapperImpl::map_field_fail / map_method_fail (IndexMap, recursion over super classes)', 'X->Y->X identity']),
+    'C11': dict(
+        level='other', verus=[], kani=[], enum=['inner'],
+        technique=ENUM_TECH,
+        explanation='Bounded stand-in for the inner-class split/join helpers: all valid object class names of length <= 7 over {a b $ /}; all pairs of names <= 3.',
+        claim='Bounded (not proved): split_inner_class_parent_and_name is the last-$ split that refuses empty sides and package crossings; get_inner_class_name/parent agree with it; from_inner_class and split are mutually inverse. '
+              'Not covered: the recursive extend/contract over a whole mapping set (IndexMap of JavaString) and failure when an outer class is missing.',
+        note='Bounded stand-in, NOT a proof: Kani needs >300 s and >14 GB for one descriptor of length 1 (measured) and Verus has no str/Chars support, so the real functions are run natively on every input up to the stated bound and compared with an independent oracle; inputs beyond the bound are not covered. Real anyhow, scratch copy of the crate.',
+        out=['quill/src/action/extend_inner_class_names.rs map / extend / contract over Mappings (IndexMap)']),
+    'C13': dict(
+        level='other', verus=[], kani=[], enum=['mpo'],
+        technique=ENUM_TECH,
+        explanation='Bounded stand-in for merge_preserve_order: all 206 x 206 pairs of duplicate-free lists of length <= 4 over 5 elements.',
+        claim='Bounded (not proved): the merged member list contains every element of either side exactly once and nothing else, keeps the client order, and keeps the server order whenever the two orders are compatible. '
+              'Not covered: merge_slice / class_merger_merge callbacks, side annotations and the jar-level table (zip, IndexMap).',
+        note='Bounded stand-in, NOT a proof: Kani needs >300 s and >14 GB for one descriptor of length 1 (measured) and Verus has no str/Chars support, so the real functions are run natively on every input up to the stated bound and compared with an independent oracle; inputs beyond the bound are not covered. Real anyhow, scratch copy of the crate.',
+        out=['dukebox/src/merge.rs merge_slice, class_merger_merge, merge (jar table), sided_annotation', 'dukebox/src/storage/*']),
+    'C18': dict(
+        level='other', verus=[], kani=[], enum=['desc', 'names', 'inner'],
+        technique=ENUM_TECH,
+        explanation='Bounded stand-in for the descriptor grammar and the name predicates: all strings of length <= 5 (field/return descriptors, 11 letters), <= 6 (method descriptors, 9 letters), <= 5 (names, 8 letters), plus the 255-dimension boundary and print-then-parse on a family of type structures.',
+        claim='Bounded (not proved): field, return and method descriptor parsers accept exactly the JVMS 4.3.2/4.3.3 grammar, printing reproduces the input and parsing a printed type reproduces the structure, the 255-dimension cap is exact, '
+              'the validity predicates behind the name types accept exactly the documented strings, and the inner-class split/join helpers are mutually inverse.',
+        note='Bounded stand-in, NOT a proof: Kani needs >300 s and >14 GB for one descriptor of length 1 (measured) and Verus has no str/Chars support, so the real functions are run natively on every input up to the stated bound and compared with an independent oracle; inputs beyond the bound are not covered. Real anyhow, scratch copy of the crate.',
+        out=['strings longer than the bound', 'unicode names', 'signatures (check_valid accepts everything)']),
     'C16': dict(
-        level='proof', verus=['rlabels', 'cwrite', 'wjump', 'rskip', 'rbranch', 'adiff', 'scope', 'c20len'], kani=[],
+        level='proof', verus=['rlabels', 'cwrite', 'wjump', 'rskip', 'rbranch', 'adiff', 'scope', 'c20len'], kani=[], enum=['desc', 'mapdesc'],
         technique=VERUS_TECH + ': implicit safety obligations (overflow, index, unwrap, unreachable, termination)',
         claim='Unbounded proof of panic-freedom and termination for every function extracted for the other properties (Verus generates no-overflow, in-bounds, no-failing-unwrap, unreachable!() unreachable, decreases obligations for each). '
               'Partial: text parsers built on Peekable<Chars>/BufRead are outside the verifier and not covered.',
@@ -85,8 +118,4 @@ NOT_APPLICABLE = {
     'C14': 'string surgery on JavaString + IndexMap recursion + jar I/O; the claim relates two whole-program transformations',
     'C15': 'code lives in the binary crate (tokio/reqwest/zip dependency closure not compilable by Kani), predicates over IndexMap/IndexSet graphs',
     # not yet built in this session (moved to claimed checks as they are built):
-    'C06': 'not yet built (planned: bounded Kani map_desc)',
-    'C11': 'not yet built (planned: bounded Kani inner class split/join)',
-    'C13': 'not yet built (planned: bounded Kani merge_preserve_order)',
-    'C18': 'not yet built (planned: bounded Kani descriptor grammar)',
 }
